@@ -74,7 +74,7 @@ func runSched(p sparams) func(e *schedx.Exec) *schedx.Outcome {
 				cfg.LimiterMiddleware = limiter.SlidingWindow{}
 			}
 			if p.Storage == "injected" {
-				cfg.Storage = &yStorage{ttlStorage{data: map[string]ttlEntry{}}}
+				cfg.Storage = &yStorage{}
 			}
 			cfg.SkipFailedRequests = p.Skip == "failed"
 			cfg.SkipSuccessfulRequests = p.Skip == "successful"
@@ -241,14 +241,27 @@ func runSchedules(r *core.Run, depth int, alpha []hop, cfgs []hcfg) {
 		for _, c := range crashed {
 			r.Violate("worker-crashed", "a worker process died (fatal runtime error or kill)", c, nil, nil)
 		}
+		fams := map[string]any{}
+		for _, f := range append([]family{{Name: "base", Depth: depth, Alpha: alpha, Cfgs: cfgs}}, families(r.Quick())...) {
+			e := map[string]any{"depth": f.Depth, "alphabet": fmt.Sprint(f.Alpha), "configs": len(f.Cfgs), "histories": r.P.Counters["histories:"+f.Name]}
+			if f.Own > 0 {
+				e["own_letters_at_least_one_per_history"] = fmt.Sprint(f.Alpha[len(f.Alpha)-f.Own:])
+			}
+			if f.Overlap {
+				e["overlap"] = "one request per run keeps its handler running during the next k>=1 operations (every position, every k)"
+			}
+			fams[f.Name] = e
+		}
 		cov := schedx.Coverage(r, scenarios, map[string]any{
-			"history_depth":        depth,
-			"history_alphabet":     fmt.Sprint(alpha),
-			"history_configs":      len(cfgs),
-			"histories":            r.P.Counters["histories"],
-			"history_transitions":  r.P.Counters["transitions"],
-			"unspecified_skipped":  r.P.Counters["unspecified_skipped"],
-			"rule": "Harness A: every sequence of exactly `history_depth` operations over the alphabet (requests on 2 keys with downstream status 200/500 and optional slow handler that moves the virtual clock past the window; clock ticks) x 36 configurations {fixed,sliding}x{memory,injected storage}x{no skip,SkipFailed,SkipSuccessful}x{Max=2, MaxFunc a->1 b->3 (Max=5), MaxFunc->0}; fresh app per history, oracle after every step against a two-sided window model (must-admit if even counting all arrivals leaves budget, must-reject if the hits that reached the handler exhaust it). Harness B: all interleavings of the concurrent scenarios under the cooperative scheduler within the stated preemption bounds; oracle = counted handler runs <= limit, no rejection when arrivals fit, porcupine linearizability of the hit counter, no deadlock/panic.",
+			"history_depth":             depth,
+			"history_alphabet":          fmt.Sprint(alpha),
+			"history_configs":           len(cfgs),
+			"history_families":          fams,
+			"histories":                 r.P.Counters["histories"],
+			"history_transitions":       r.P.Counters["transitions"],
+			"unspecified_skipped":       r.P.Counters["unspecified_skipped"],
+			"downstream_status_differs": r.P.Counters["downstream_status_differs"],
+			"rule":                      "Harness A: every sequence of exactly `history_depth` operations over the alphabet (requests on 2 keys with downstream status 200/500 and optional slow handler that moves the virtual clock past the window; clock ticks) x 36 configurations {fixed,sliding}x{memory,injected storage}x{no skip,SkipFailed,SkipSuccessful}x{Max=2, MaxFunc a->1 b->3 (Max=5), MaxFunc->0}; fresh app per history, oracle after every step against a two-sided window model (must-admit if even counting all arrivals leaves budget, must-reject if the hits that reached the handler exhaust it). Further families (history_families; one operation shorter unless stated), same oracle: unset-config-fields+window3 = Config fields left at their zero value singly and together (Max -> documented 5, Expiration -> 1 minute, KeyGenerator -> c.IP() with two peers, limiter.New() without argument) and a 3 s window, with letters that repeat a request 4-5 times and ticks relative to the window (base depth); handler-kinds+bypass = histories with at least one request whose handler returns an error (fiber.Error / plain error; the status is written by the error handler after the middleware unwound) or that Config.Next exempts; per-request-limit = MaxFunc takes the limit from the request (one key, limits 1 and 3; base depth); overlap = the next k operations (ticks, whole requests) happen while one request's handler runs, its completion (give-back of a skipped hit) meets the window the others rolled; uncopied-key-reused-ctx = KeyGenerator returns c.Get(..) uncopied and all requests arrive on one reused fasthttp.RequestCtx. A violating history of a family is re-run with each added dimension switched off: violations that vanish get one signature per class and configuration (`only-with=<dimension>`). A panic while serving a request is recovered and reported (request-panicked). Harness B: all interleavings of the concurrent scenarios under the cooperative scheduler within the stated preemption bounds; oracle = counted handler runs <= limit, no rejection when arrivals fit, porcupine linearizability of the hit counter, no deadlock/panic.",
 		})
 		cov["transitions"] = r.P.Counters["points"] + r.P.Counters["transitions"]
 		cov["traces_validated_against_impl"] = r.P.Counters["executions"] + r.P.Counters["histories"]
